@@ -109,7 +109,15 @@ def c03a(ctx, tu):
         A["is_forbidden"]: (lambda c, lo, hi: hi == 0, lambda c, lo, hi: True, "max == 0"),
     }
     for name, (want, care, text) in spec.items():
-        for fn in tu.need(name):
+        # the predicate as declared in the handler base - and every override of it in a derived handler (a virtual
+        # predicate answers through its final overrider)
+        fns = list(tu.need(name))
+        short = name.rsplit("::", 1)[-1]
+        for f2 in tu.fns.values():
+            if f2.has_body and f2.is_lib and f2.kind == "method" and f2.qe != name and f2.qe.endswith("::" + short) and \
+                    f2.qe.startswith("trompeloeil::sequence_handler") and not f2.rec.get("params"):
+                fns.append(f2)
+        for fn in fns:
             try:
                 bad = None
                 rows = 0
@@ -117,11 +125,11 @@ def c03a(ctx, tu):
                     if not care(v["c"], v["lo"], v["hi"]):
                         continue
                     rows += 1
-                    o = Oracle(members=members(tu, v["lo"], v["hi"], v["c"]))
+                    o = Oracle(members=members(tu, v["lo"], v["hi"], v["c"])).descend_into(tu)
                     r = bool(ret_value(fn, o))
                     if r != bool(want(v["c"], v["lo"], v["hi"])):
                         bad = "count=%s min=%s max=%s gives %s" % (v["c"], v["lo"], "unbounded" if v["hi"] == MAXSZ else v["hi"], r)
-                ctx.ob("C03.a", name, bad is None, pattern=fn.pat, unit=tu.name,
+                ctx.ob("C03.a", name if fn.qe == name else fn.qe, bad is None, pattern=fn.pat, unit=tu.name, inst=fn.q,
                        detail="" if bad is None else "%s must be (%s): %s" % (name.rsplit("::", 1)[-1], text, bad))
                 ctx.sample({"rule": "C03.a", "predicate": name, "spec": text, "rows_evaluated": rows})
             except Unknown as u:
